@@ -15,6 +15,15 @@
    extracted model on every run (see that file).
 4. On any disagreement: shrink the knot vector / query list, decide sides with the property's
    boolean form (knot exactness, hint independence, 5 % rule), record the violation with replay.
+5. Parameter chains (checks/c10_chains.py): FrangeModel (range of scalar / vector / unknown / correlated
+   chains as _vnacal_get_parameter_frange computes it, the two clamp comparisons and the decision
+   regenerated from the C text, add-time recursion into the correlate, set_frequency_vector over the
+   hash) against the harness op `chain` (ranges of every parameter exactly, parameters made / refused,
+   accept / refuse through the public add + set_frequency_vector in both orders, and the property's
+   5 % / cover rule on every range the solver reads); sigma of the chain head against the extracted
+   SigmaSplineModel.  checks/c02_sigma.py: through the public API, a self-calibration whose correlated
+   parameter has its sigma(f) given on a 2-point grid and as the same line sampled at every calibration
+   frequency must give the same solved parameters and corrected device.
 """
 import os
 import re
@@ -30,6 +39,8 @@ COND_MIN = 1e-6
 AMP_MAX = 100.0
 AMP_SKIP = 1e7
 RFI_CONSTS = [None, None, 5]
+# the chain model: its comparison operators come from Gen/RangeGen.v
+GEN_DEPENDENT = ["Interp/FrangeModel.v", "Interp/FrangeProofs.v", "Interp/FrangeExamples.v", "Interp/FrangeRun.v"]
 
 
 # ----------------------------------------------------------------------------- number helpers
@@ -160,6 +171,18 @@ class Case(object):
             return "apply %d %s %d %s" % (len(self.cf), v(self.cf), len(self.qs), v(self.qs))
         if o == "zero":
             return "zero"
+        if o == "chain":
+            parts = []
+            for nd in self.nodes:
+                if nd[0] in ("S", "U"):
+                    parts.append(nd[0])
+                elif nd[0] == "V":
+                    parts.append("V %d %s" % (len(nd[1]), v(nd[1])))
+                elif nd[2] is None:
+                    parts.append("K %d N %s" % (nd[1], v(nd[3])))
+                else:
+                    parts.append("K %d O %s %s" % (nd[1], v(nd[2]), v(nd[3])))
+            return "chain %d %d %s %d %s %d %s" % (self.order, len(self.cf), v(self.cf), len(self.nodes), " ".join(parts), len(self.qs), v(self.qs))
         raise ValueError(o)
 
     def c_line(self):
@@ -170,13 +193,26 @@ class Case(object):
 
     def to_json(self):
         d = dict(self.__dict__)
+        if "nodes" in d:
+            d["nodes"] = [chain_node_text(nd) for nd in d["nodes"]]
         for k, val in list(d.items()):
+            if k == "nodes":
+                continue
             if isinstance(val, list):
                 d[k] = [[str(a) for a in e] if isinstance(e, tuple) else str(e) for e in val]
             elif isinstance(val, Fraction):
                 d[k] = str(val)
         d["harness_line"] = self.c_line()
         return d
+
+
+def chain_node_text(nd):
+    fl = lambda l: "[" + ", ".join("%.17g" % float(x) for x in l) + "]"
+    if nd[0] in ("S", "U"):
+        return {"S": "scalar", "U": "unknown(previous)"}[nd[0]]
+    if nd[0] == "V":
+        return "vector " + fl(nd[1])
+    return "correlated(previous, sigma_frequencies=%d, grid=%s, sigma=%s)" % (nd[1], "NULL" if nd[2] is None else fl(nd[2]), fl(nd[3]))
 
 
 def parse_corpus_line(line):
@@ -236,6 +272,22 @@ def parse_corpus_line(line):
         return Case(op, cf=cf, qs=vec(int(nxt())))
     if op == "zero":
         return Case("zero")
+    if op == "chain":
+        order = int(nxt())
+        cf = vec(int(nxt()))
+        nodes = []
+        for _ in range(int(nxt())):
+            k = nxt()
+            if k in ("S", "U"):
+                nodes.append((k,))
+            elif k == "V":
+                nodes.append(("V", vec(int(nxt()))))
+            else:
+                ns = int(nxt())
+                mode = nxt()
+                g = vec(ns) if mode == "O" else None
+                nodes.append(("K", ns, g, vec(ns)))
+        return Case("chain", order=order, cf=cf, nodes=nodes, qs=vec(int(nxt())))
     raise ValueError("corpus: unknown op " + op)
 
 
@@ -709,6 +761,11 @@ def run(ctx):
         "axioms: none (Print Assumptions: Closed under the global context for every theorem of Properties_C10.v)",
         "translator translate/ranges.py (C text -> Gen/RangeGen.v: EPS, 10*EPS, MIN_DX, VNACAL_F_EXTRAPOLATION, VNACAL_MAX_M and the four range decision functions), "
         "validated on every run against the accept/reject outcome of the compiled public functions",
+        "translator translate/ranges.py, parameter chains: the two clamp stanzas of _vnacal_get_parameter_frange -> frange_clamp, check_single_frequency_range "
+        "with an infinite upper end -> range_new_parameter_reject_x; the walk, the sigma-vector assignment of vnacal_make_correlated_parameter, "
+        "_vnacal_get_correlated_sigma and the recursion of _vnacal_new_get_parameter / _vnacal_new_check_parameter are checked against fixed idioms",
+        "hand-written models coq/Interp/FrangeModel.v (parameter trees, walk, mk_correlated validation, add_ok / set_ok) and SigmaSplineModel.v tied by "
+        "exact comparison with the harness op `chain` (vm_compute of FrangeRun.chain_report; Python mirror in lib/interp_py.py compared with it on every case)",
         "hand-written models coq/Interp/RfiModel.v, SplineModel.v tied by exact-rational correspondence with _vnacal_rfi / _vnacommon_spline_* "
         "(extracted OCaml driver; fast Python mirror lib/interp_py.py validated exactly against the extracted model on every run)",
         "gcc, ASan/UBSan/LSan for the harness; OCaml + zarith for number parsing/printing in the driver glue",
@@ -730,13 +787,14 @@ def run(ctx):
         ctx.log("translator: source no longer matches the accepted idiom:", e)
         ctx.obligation("T6:translate", False, str(e))
         broken["T6:translate"] = "translator: " + str(e)
-    vfiles = ["Interp/QOrd.v", "Interp/RfiModel.v", "Interp/SplineModel.v", "Gen/RangeGen.v", "Interp/RfiProofs.v",
+    vfiles = ["Interp/QOrd.v", "Interp/RfiModel.v", "Interp/SplineModel.v", "Interp/FrangeBase.v", "Gen/RangeGen.v", "Interp/RfiProofs.v",
               "Interp/SplineProofs.v", "Interp/RangeProofs.v", "Interp/RfiRational.v", "Interp/C10Lemmas.v", "Interp/RfiWindow.v",
-              "Interp/RfiRationalN.v", "Interp/RfiRationalEx.v", "Properties_C10.v"]
+              "Interp/RfiRationalN.v", "Interp/RfiRationalEx.v"] + GEN_DEPENDENT + \
+             ["Interp/SigmaSplineModel.v", "Interp/SigmaSplineProofs.v", "Interp/SigmaSplineExamples.v", "Properties_C10.v"]
     vfiles = [v for v in vfiles if os.path.exists(os.path.join(vplib.COQDIR, v))]
     if tr is None:
         # Gen/RangeGen.v on disk is stale: the theorems that depend on it are not discharged
-        vfiles = [v for v in vfiles if v not in ("Gen/RangeGen.v", "Interp/RangeProofs.v", "Properties_C10.v")]
+        vfiles = [v for v in vfiles if v not in ["Gen/RangeGen.v", "Interp/RangeProofs.v", "Properties_C10.v"] + GEN_DEPENDENT]
         ctx.obligation("coq:Interp/RangeProofs.v + Properties_C10.v", False, "Gen/RangeGen.v could not be regenerated")
     ok, res = ctx.coq_obligations(vfiles)
     if not ok:
@@ -774,7 +832,8 @@ def run(ctx):
                         corpus.append(c)
     ctx.extra["corpus_cases"] = len(corpus)
     corpus_range = [c for c in corpus if c.op in ("newpar", "newparh", "merr", "apply")]
-    corpus = [c for c in corpus if c.op not in ("newpar", "newparh", "merr", "apply")]
+    corpus_chain = [c for c in corpus if c.op == "chain"]
+    corpus = [c for c in corpus if c.op not in ("newpar", "newparh", "merr", "apply", "chain")]
     nrfi = 400 if not thorough else 6000
     npar = 120 if not thorough else 1500
     nspl = 250 if not thorough else 3000
@@ -868,6 +927,13 @@ def run(ctx):
     ctx.log("range decisions compared")
     check_apply_history(ctx, R, rng, 6 if not thorough else 60)
     ctx.log("apply history compared")
+    # ---------------------------------------------------------------- 5. parameter chains, sigma
+    import c10_chains
+    c10_chains.check_chains(ctx, R, rng, broken, 70 if not thorough else 700, corpus_chain)
+    ctx.log("parameter chains compared")
+    import c02_sigma
+    c02_sigma.run_part(ctx)
+    ctx.log("two descriptions of one sigma(f) compared (public API)")
     return finish(ctx, broken, stats)
 
 
@@ -899,7 +965,9 @@ def fallback_translation():
         "range_apply": {"lets": [("fmin", lo("have_lo")), ("fmax", hi("have_hi"))],
                         "cond": [("<", ("var", "need_lo"), ("var", "fmin")), (">", ("var", "need_hi"), ("var", "fmax"))]}}
     return {"consts": {"f_extrapolation": f(1, 100), "rfi_eps": f(1, 10 ** 25), "rfi_cut_factor": f(10),
-                       "spline_min_dx": f(1, 10000), "vnacal_max_m": 5}, "sites": sites, "fallback": True}
+                       "spline_min_dx": f(1, 10000), "vnacal_max_m": 5}, "sites": sites, "fallback": True,
+            "frange": {"stanzas": [{"a": "smin", "op": ">", "b": "fmin", "target": "fmin", "value": "smin"},
+                                   {"a": "smax", "op": "<", "b": "fmax", "target": "fmax", "value": "smax"}]}}
 
 
 # ----------------------------------------------------------------------------- mirror validation
